@@ -142,7 +142,7 @@ def collect(obs):
 
 
 def run(tier, seed, only=None):
-    # ordered mode: symbolic frame budget; unordered mode: without a budget (must hold) and with a symbolic budget (known finding, see known_findings.json)
+    # ordered mode: symbolic frame budget; unordered mode: without a budget and with a symbolic budget (the latter was finding F11, fixed in 829ed8356)
     if tier == 'quick':
         confs = [(2, 1, True, None), (2, 2, True, None), (2, 2, False, -1), (2, 2, False, None)]
     else:
